@@ -34,9 +34,7 @@ Print Assumptions C13_edit.
 (** the printed string is a well-formed sentence of the C12 grammar with the meaning of the map *)
 Theorem C13_printed_is_sentence : forall st m, good_map m ->
   exists e, wf e /\ render e = construct st m /\ forall k, denote e k == dim m k.
-Proof.
-  intros st m H. destruct st; [exact (fraction_sentence m H)|exact (exponents_sentence m H)].
-Qed.
+Proof. exact printed_sentence_lemma. Qed.
 Print Assumptions C13_printed_is_sentence.
 
 (** non-vacuity: m^2 kg s^-2 A^(-1/2) is a good map; it prints as "m^2.kg/(s^2.A^(1/2))" and
